@@ -499,10 +499,11 @@ Proof.
   set (e := (b / 8388608) mod 256). set (m := b mod 8388608).
   assert (He : 0 <= e < 256) by (apply Z.mod_pos_bound; lia).
   assert (Hm : 0 <= m < 8388608) by (apply Z.mod_pos_bound; lia).
+  clearbody e m b.
   destruct (e =? 255) eqn:E1. { now destruct (m =? 0). }
   apply Z.eqb_neq in E1.
   destruct (e =? 0) eqn:E0.
-  - destruct m as [|p|p] eqn:Em; try easy.
+  - destruct m as [|p|p]; [reflexivity| |lia].
     unfold valid, valid_binary, bounded, canonical_mantissa.
     rewrite Zpos_digits2_pos.
     assert (D : Zdigits radix2 (Z.pos p) <= 23) by (apply Zdigits_le_Zpower; cbn; lia).
@@ -510,7 +511,7 @@ Proof.
     unfold SpecFloat.fexp, SpecFloat.emin, F32.prec, F32.emax.
     apply andb_true_intro. split; [apply Zeq_bool_true|apply Zle_bool_true]; lia.
   - apply Z.eqb_neq in E0.
-    destruct (m + 8388608) as [|p|p] eqn:Em; try lia.
+    destruct (m + 8388608) as [|p|p] eqn:Em; [lia| |lia].
     unfold valid, valid_binary, bounded, canonical_mantissa.
     rewrite Zpos_digits2_pos.
     assert (D : Zdigits radix2 (Z.pos p) = 24) by (apply Zdigits_unique; cbn; lia).
